@@ -300,12 +300,15 @@ fn record_case(src: &mut Src, ctx: &mut Ctx) -> Result<(), String> {
     let mut lib = GdsLibrary::new("L");
     lib.units = GdsUnits(v[0], v[1]);
     let mut s = GdsStruct::new("S");
-    s.elems.push(GdsElement::GdsStructRef(GdsStructRef {
-        name: "T".into(),
-        xy: GdsPoint::new(1, 2),
-        strans: Some(GdsStrans { mag: Some(v[2]), angle: Some(v[3]), ..Default::default() }),
-        ..Default::default()
-    }));
+    // MAG and ANGLE belong to the transform of a structure reference, an array reference or a text
+    let strans = Some(GdsStrans { mag: Some(v[2]), angle: Some(v[3]), ..Default::default() });
+    let kind = src.below(3);
+    ctx.label(["reals on a structure reference", "reals on an array reference", "reals on a text"][kind as usize]);
+    s.elems.push(match kind {
+        0 => GdsElement::GdsStructRef(GdsStructRef { name: "T".into(), xy: GdsPoint::new(1, 2), strans, ..Default::default() }),
+        1 => GdsElement::GdsArrayRef(GdsArrayRef { name: "T".into(), xy: [GdsPoint::new(0, 0), GdsPoint::new(20, 0), GdsPoint::new(0, 30)], cols: 2, rows: 3, strans, ..Default::default() }),
+        _ => GdsElement::GdsTextElem(GdsTextElem { string: "t".into(), layer: 1, texttype: 0, xy: GdsPoint::new(1, 2), strans, ..Default::default() }),
+    });
     lib.structs.push(s);
     let mut bytes = Vec::new();
     lib.write(&mut bytes).map_err(|e| format!("write failed: {}", e))?;
@@ -319,9 +322,12 @@ fn record_case(src: &mut Src, ctx: &mut Ctx) -> Result<(), String> {
     }
     let lib2 = GdsLibrary::from_bytes(&bytes).map_err(|e| format!("read failed: {}", e))?;
     let st = match &lib2.structs[0].elems[0] {
-        GdsElement::GdsStructRef(r) => r.strans.clone().unwrap(),
+        GdsElement::GdsStructRef(r) => r.strans.clone(),
+        GdsElement::GdsArrayRef(r) => r.strans.clone(),
+        GdsElement::GdsTextElem(r) => r.strans.clone(),
         _ => return Err("element kind changed".into()),
-    };
+    }
+    .ok_or("the element's transform (STRANS) is absent after reading")?;
     let got = [lib2.units.0, lib2.units.1, st.mag.ok_or_else(|| format!("MAG {:e} was written but is absent after reading (ANGLE {:e})", v[2], v[3]))?, st.angle.ok_or_else(|| format!("ANGLE {:e} was written but is absent after reading (MAG {:e})", v[3], v[2]))?];
     for k in 0..4 {
         ctx.nontrivial(v[k].to_bits());
